@@ -234,6 +234,7 @@ type pairCase struct {
 	A, B [][]byte // wire labels
 	FQ   bool     // both names equally qualified (precondition of every caller in the library)
 	Raw  bool     // octets >= 0x80 are written raw (as typed UTF-8) instead of \DDD: they compare octet for octet
+	All  bool     `json:",omitempty"` // every octet is written raw except dot and backslash (a name a program put together)
 }
 
 func render(n wm.Name, fq bool) string {
@@ -242,6 +243,26 @@ func render(n wm.Name, fq bool) string {
 		s = s[:len(s)-1]
 	}
 	return s
+}
+
+// renderAllRaw writes every octet raw except the two that cannot be (dot, backslash)
+func renderAllRaw(n wm.Name, fq bool) string {
+	var sb strings.Builder
+	for i, l := range n {
+		if i > 0 {
+			sb.WriteByte('.')
+		}
+		for _, b := range l {
+			if b == '.' || b == '\\' {
+				sb.WriteByte('\\')
+			}
+			sb.WriteByte(b)
+		}
+	}
+	if fq || len(n) == 0 {
+		sb.WriteByte('.')
+	}
+	return sb.String()
 }
 
 // renderRaw is render, but octets >= 0x80 are written raw
@@ -285,6 +306,9 @@ func checkPair(c pairCase) error {
 	if c.Raw {
 		sa, sb = renderRaw(a, c.FQ), renderRaw(b, c.FQ)
 	}
+	if c.All {
+		sa, sb = renderAllRaw(a, c.FQ), renderAllRaw(b, c.FQ)
+	}
 	want := commonSuffix(a, b)
 	differ := !a.Equal(b)
 	pbt.Note([]byte(sa+"|"+sb), want >= 1 && differ, fmt.Sprintf("common=%d", min(want, 3)), fmt.Sprintf("differ=%v", differ))
@@ -304,6 +328,27 @@ func checkPair(c pairCase) error {
 		return pbt.Errf("IsSubDomain(parent=%q,child=%q)=%v want %v", sa, sb, got, want == len(a))
 	}
 	return nil
+}
+
+// every pair of octet values at one position of otherwise equal names, in both spellings the
+// comparison helpers can meet (escaped as the decoder writes them, and raw for octets >= 0x80):
+// equal exactly when the octets are equal or are the two cases of one ASCII letter
+func eachOctetPair(emit func(pairCase)) {
+	for _, raw := range []bool{false, true} {
+		for x := 0; x < 256; x++ {
+			for y := 0; y < 256; y++ {
+				if raw && x < 0x80 && y < 0x80 && x >= 0x21 && y >= 0x21 && x != 0x7f && y != 0x7f {
+					continue // same text as the escaped pass (up to the specials, which the all-raw pass writes raw)
+				}
+				a := [][]byte{{'a', byte(x), 'b'}, []byte("example")}
+				b := [][]byte{{'a', byte(y), 'b'}, []byte("example")}
+				emit(pairCase{A: a, B: b, FQ: true, Raw: raw})
+				if raw {
+					emit(pairCase{A: a, B: b, FQ: true, All: true})
+				}
+			}
+		}
+	}
 }
 
 // manyLabels draws a name with a label count near the interesting boundaries (powers of two, the maximum 127)
@@ -484,6 +529,7 @@ func init() {
 			}
 		}
 	}
+	pbt.RegisterEnum(pbt.Enum[pairCase]{Name: "octet-pair-exhaustive", Exhaustive: true, Each: eachOctetPair, Check: checkPair})
 	pbt.RegisterEnum(pbt.Enum[pairCase]{Name: "compare-exhaustive-3", Tiers: "quick", Exhaustive: true, Each: pairs(3), Check: checkPair})
 	pbt.RegisterEnum(pbt.Enum[pairCase]{Name: "compare-exhaustive-4", Tiers: "thorough", Exhaustive: true, Each: pairs(4), Check: checkPair})
 }
